@@ -34,6 +34,11 @@ type Result struct {
 	Trace      []string // human readable, only when tracing
 	Verdict    Verdict
 	VerdictMsg string
+	// Long marks a long history (300-70000 events or commands). Binaries built
+	// with the race detector execute a shortened version of such a plan (the
+	// detector's shadow of a few GB of transient heap is never given back), so
+	// their histories are not compared across binaries by the determinism gate.
+	Long bool
 }
 
 func (r *Result) Add(prop, kind, class, detail string) {
